@@ -186,7 +186,7 @@ func c07(r *core.Run) {
 					r.Note(fmt.Sprintf("skipped %s rev %d: full decode fails (%v)", mc.Name, rev, err))
 					continue
 				}
-				for cut := 0; cut < len(mc.Bytes); cut++ {
+				for _, cut := range cutPositions(r, ci, len(mc.Bytes)) {
 					r.Eval()
 					if len(mc.Bytes) >= 2 {
 						r.NonTrivial(mc.Name, rev, cut, core.Hash(mc.Bytes))
